@@ -657,7 +657,10 @@ def moves_from_lvalue_ref(f):
                 if d.get("inl") and _bound_to_own_object(f, a):
                     continue        # a private helper that consumes its caller's LOCAL (lock, handle) through a reference
                 out.append((st, d.get("name")))
-        elif d.get("k") == "local" and d.get("ref") and not d.get("inl_ret"):
+        elif d.get("k") == "local" and d.get("ref") and not d.get("inl_ret") and \
+                d.get("id") not in {s_["loopvar"].get("id") for s_ in f.stmts.values() if s_["k"] == "CXXForRangeStmt" and s_.get("loopvar")}:
+            # (the variable of a range-for over a whole container is exempt: moving elements while the container is being
+            # rebuilt is a restructuring idiom, not a theft from somebody else's entry)
             # `auto& slot = map.find(k)->second; use(std::move(slot));` empties storage that belongs to somebody else
             t = d.get("type", "").strip()
             if t.endswith("&") and not t.endswith("&&") and not t.startswith("const "):
